@@ -1383,6 +1383,30 @@ void HistSim::opRemove(const Op& op, size_t ix) {
       for (size_t q = 0; q < iterPos; q++)
         ++it;
       a.remove(it);
+    } else if (s.isKey && via == 4 && node->k == K::Obj) {
+      // the key argument is the very key the object hands out while iterating (kv.key()): its characters belong to
+      // the member that is being removed
+      JsonObject o = h->view == 'o' ? h->o : dst.as<JsonObject>();
+      bool found = false;
+      for (JsonPair kv : o) {
+        JsonString k = kv.key();
+        if (std::string(k.c_str(), k.size()) == s.key) {
+          count("op.rem_own_key");
+          if ((ix & 1) && s.key.find('\0') == std::string::npos)
+            o.remove(k.c_str());
+          else
+            o.remove(k);
+          found = true;
+          break;
+        }
+      }
+      if (!found) {
+        Src ks2 = pickSrc(ix, 0, s.key, false);
+        withStr(ks2, s.key, arena_, [&](auto&& key) {
+          o.remove(key);
+          return 0;
+        });
+      }
     } else if (s.isKey) {
       Src ks = pickSrc(ix, 0, s.key, false);
       if (via == 3) {
